@@ -74,6 +74,8 @@ def project(op, lines, alpha, dkind):
             keep = [_far(x) for x in t[1:] if 'timers:' + x.split('@')[1].split(':')[1] in alpha]
             if any(a.startswith('timers:') for a in alpha):
                 out.append('timers ' + ' '.join(keep))
+        elif k == 'store':
+            out.append(l)         # the containers themselves: compared under every property's alphabet (state correspondence)
         elif k == 'now':
             if k in alpha:
                 out.append(l if int(t[1]) < FAR else 'now far')
@@ -105,7 +107,7 @@ def nontrivial(trace, alpha):
     n = 0
     for op, obs in trace[1:]:
         t = op.split()[0]
-        pl = project(op, [o for o in obs if not o.startswith(('now', 'states', 'timers'))], alpha, dk)
+        pl = project(op, [o for o in obs if not o.startswith(('now', 'states', 'timers', 'store'))], alpha, dk)
         pl = [l for l in pl if not (l.startswith('w ') and l.split()[2][:2] == '10')]
         if t not in ('connect', 'build', 'sethandlers') and pl:
             n += 1
